@@ -1,8 +1,9 @@
 (** C10 — the client's fid discipline over the allocator of Client/Pool.v.
 
     The call sites (ClientGen.fid_sites): Attach, Walk, WalkGetAttr and
-    xattrWalkRead do fidPool.Get, send the request that binds the new fid, and
-    fidPool.Put it back when the request failed; Close and Remove Put the
+    xattrWalkRead do fidPool.Get, send the request that binds the new fid, and on
+    failure call releaseFID, which puts the fid back only when the server
+    refused (Rlerror) and leaks it otherwise; Close and Remove Put the
     file's fid back only after Rclunk/Rremove, and throw it away on any error.
     [bound] is the set of fids the server has bound: a successful binding
     request binds, a refused one does not (server side: InsertFID only on the
